@@ -175,11 +175,17 @@ class Gen:
     def env(self, d):
         name = self.rnd.choice(ENVS)
         a_s, a_t = ('', [])
+        if self.rnd.random() < 0.25:        # optional argument of the environment, e.g. \\begin{theorem}[see \\cite{k}]
+            self.noverb += 1
+            s, t = self.seq(d - 1, n=self.rnd.randrange(1, 3), in_bracket=True)
+            self.noverb -= 1
+            if ']' not in s and '[' not in s:
+                a_s, a_t = '[' + s + ']', [('[', t)]
         if self.rnd.random() < 0.3:
             self.noverb += 1
             s, t = self.seq(d - 1, n=1)
             self.noverb -= 1
-            a_s, a_t = '{' + s + '}', [('{', t)]
+            a_s, a_t = a_s + '{' + s + '}', a_t + [('{', t)]
         body_s, body_t = self.guard(*self.seq(d - 1))
         return '\\begin{%s}%s%s\\end{%s}' % (name, a_s, body_s, name), ('env', name, a_t, body_t)
 
